@@ -4,7 +4,7 @@
 (* action of the same name (Skip / SkipMolecule are silent steps taken between events); the set of           *)
 (* positioned residues after the event and the set of engine rows that changed must be exactly what the      *)
 (* action says.  All invariants of Walk are evaluated on every state of every accepted prefix.               *)
-EXTENDS Walk, Json, IOUtils, SequencesExt
+EXTENDS Walk, Restraints, Json, IOUtils
 VARIABLES tid, l
 Doc == JsonDeserialize(IOEnv.TRACE_FILE)
 Traces == Doc
@@ -31,6 +31,11 @@ OfMol == Ev.mol = mol
 \* numeric sub-claims of C05 evaluated by the harness monitor (DESIGN 6) are required on every accepted placement
 \* (Ev.obs is a record of booleans; the raw numbers travel in Ev.raw and are not interpreted here)
 ObsOK == IF "obs" \in DOMAIN Ev THEN \A f \in DOMAIN Ev.obs : Ev.obs[f] ELSE TRUE
+\* C07: the restraints the code attached to the residue being placed are exactly those the build file selects for it
+Bld == IF "bld" \in DOMAIN Traces[tid] THEN Traces[tid].bld ELSE <<>>
+SelIds(m, n) == { Bld[i].id : i \in { j \in 1..Len(Bld) :
+                     Sel(Bld[j], [name |-> Hdr(tid).mname[m], idx |-> m - 1], [rn |-> Hdr(tid).resname[m][n], resid |-> Hdr(tid).resid[m][n]]) } }
+RidsOK(n) == IF "rids" \in DOMAIN Ev THEN ToSet(Ev.rids) = SelIds(mol, n) ELSE TRUE
 Consume == PosMatches /\ MovedMatches /\ l' = l + 1 /\ tid' = tid
 Silent == l' = l /\ tid' = tid
 
@@ -39,9 +44,9 @@ TInit == /\ tid \in 1..Len(Traces) /\ l = 1
 TNext == \/ (SkipMolecule /\ Silent)
          \/ (Skip /\ Silent)
          \/ (Is("begin") /\ OfMol /\ BeginAttempt /\ Consume)
-         \/ (Is("root") /\ OfMol /\ Ev.node = Root /\ PlaceRootOk /\ ObsOK /\ Consume)
+         \/ (Is("root") /\ OfMol /\ Ev.node = Root /\ PlaceRootOk /\ ObsOK /\ RidsOK(Ev.node) /\ Consume)
          \/ (Is("rootfail") /\ OfMol /\ PlaceRootFail /\ Consume)
-         \/ (Is("ok") /\ OfMol /\ step <= Len(Path) /\ Path[step] = <<Ev.prev, Ev.cur>> /\ PlaceOk /\ ObsOK /\ Consume)
+         \/ (Is("ok") /\ OfMol /\ step <= Len(Path) /\ Path[step] = <<Ev.prev, Ev.cur>> /\ PlaceOk /\ ObsOK /\ RidsOK(Ev.cur) /\ Consume)
          \/ (Is("fail") /\ OfMol /\ step <= Len(Path) /\ Path[step] = <<Ev.prev, Ev.cur>> /\ PlaceFail /\ Consume)
          \/ (Is("rewind") /\ OfMol /\ Rewind /\ Ev.to = step' /\ Len(Ev.placed) = Len(placed')
                /\ (\A i \in 1..Len(placed') : placed'[i] = <<Ev.placed[i][1], Ev.placed[i][2]>>) /\ Consume)
@@ -50,7 +55,7 @@ TNext == \/ (SkipMolecule /\ Silent)
          \/ (Is("cleanup") /\ OfMol /\ ToSet(Ev.nodes) = BuildSet(mol) /\ (AttemptFailed \/ GiveUp) /\ Consume)
          \/ (Is("handled") /\ OfMol /\ ~Ev.success /\ HandledFail /\ Consume)
          \/ (Is("handled") /\ OfMol /\ Ev.success /\ Accept /\ Consume)
-         \/ (Is("finish") /\ Finish /\ Consume)
+         \/ (Is("finish") /\ Finish /\ ObsOK /\ Consume)
 TSpec == TInit /\ [][TNext]_<<vars, tid, l>>
 \* fails is model bookkeeping only: traces may contain any number of failures
 Mark == (l = Len(Evs) + 1 /\ pc = "finished") => TLCSet(1, TLCGet(1) \cup {tid})
